@@ -2,7 +2,10 @@
 (* Trace validation for C28: a recorded run - application writes, the steps of the scripted
    terminal, and for every Serial.update() the output half of the real process image afterwards
    and the bytes that arrived in the application's pipe - must be a behaviour of Serial, and must
-   end with everything transferred.                                                             *)
+   end with everything transferred.  (The invariants of Serial are established for all behaviours
+   in MC_Serial; they are not listed in SerialTrace.cfg because TLC stops a whole batch at the
+   first violated invariant - a run that leaves the specification is rejected at the step where
+   it does so, or at its end by Quiescent.)                                                     *)
 EXTENDS Serial, Json, IOUtils, TLCExt
 Traces == JsonDeserialize(IOEnv.TRACE_FILE)
 VARIABLES tid, l
